@@ -14,6 +14,7 @@ norm_info); then implementation and model must agree to the last bit.  Where tha
 normalisation, two or more recombination parents -- the weights are logarithms --, the wild stream) both are compared within a
 rigorous rounding bound (a few units of 2^-52 of the sum of the absolute values of the terms) and the model's solution point
 is re-synchronised with the implementation's afterwards."""
+import py2v_es
 import json
 import os
 import random
@@ -28,8 +29,12 @@ from es_spies import make_spy_archive, make_spy_es, make_spy_generator, make_spy
 
 CONFIG = {
     "cone": ["Base/ListUtil.v", "Base/QVec.v", "Model/Store.v", "Model/ESControl.v", "Spec/ESControlSpec.v", "Proofs/ESControlProofs.v",
-             "Model/DQD.v", "Proofs/DQDProofs.v", "Properties/C19.v"],
-    "trusted": ["Model/DQD.v models the emitters' own arithmetic and control over exact rationals; the coefficient rows of the evolution "
+             "Model/DQD.v", "Proofs/DQDProofs.v", "Generated/ESGen.v", "Refine/ESRefine.v", "Properties/C19.v"],
+    "extra_property_files": ["Refine/ESRefine.v"],
+    "trusted": ["harness/py2v_es.py: fail-closed translator of _check_restart, the num_parents expression and the restart test of tell() of "
+                "EvolutionStrategyEmitter and GradientArborescenceEmitter into Generated/ESGen.v on every run; Refine/ESRefine.v proves both "
+                "copies equal to Model/ESControl.v for all arguments",
+                "Model/DQD.v models the emitters' own arithmetic and control over exact rationals; the coefficient rows of the evolution "
                 "strategy / the Gaussian sampler, the ranking, the stop signal, numpy's Euclidean norms, the normalised recombination weights "
                 "ln(mu+1/2)-ln(i), the sampled elite and the new point of a gradient optimiser other than gradient ascent are inputs of the "
                 "model (arbitrary in the theorems); the harness checks per observed call that numpy's norm is the Euclidean norm (exactly on "
@@ -900,6 +905,7 @@ def replay(rp, driver):
 
 
 def check(rep, tier, seed, driver):
+    py2v_es.report(rep)
     rng = random.Random(seed)
     n_gae, n_goe = (1400, 900) if tier == "quick" else (8000, 5000)
     rep.rule = ("random configurations of GradientArborescenceEmitter (solution dim 1..5, 1..3 measures, batch 1..6, mu / filter, basic / "
